@@ -32,14 +32,11 @@ def VSign.new (a : UInt16) (style : FlipStyle) : VSign :=
 /-- `flush_pixels`. -/
 def VSign.flush (s : VSign) : VSign :=
   if s.pending.isEmpty then s
-  else
-    let data := s.pending
-    let s := { s with pending := [] }
-    if s.w > 0 ∧ s.h > 0 then
-      match Page.fromBytes s.w s.h data with
-      | .ok p => { s with pages := s.pages ++ [p] }
-      | .error _ => s
-    else s
+  else if s.w > 0 ∧ s.h > 0 then
+    match Page.fromBytes s.w s.h s.pending with
+    | .ok p => { s with pending := [], pages := s.pages ++ [p] }
+    | .error _ => { s with pending := [] }
+  else { s with pending := [] }
 
 /-- `reset`. -/
 def VSign.reset (s : VSign) : VSign :=
@@ -76,6 +73,10 @@ def configDims (data : List UInt8) : Except Panic (Option (Nat × Nat)) :=
       | _, _ => .error .index
     else .ok none
 
+/-- Buffer one accepted pixel chunk. -/
+def VSign.appendChunk (s : VSign) (data : List UInt8) : VSign :=
+  { s with pending := s.pending ++ data, chunks := satSucc s.chunks }
+
 /-- `send_data`. -/
 def VSign.sendData (s : VSign) (off : UInt16) (data : List UInt8) : Except Panic VSign :=
   if s.state = .configInProgress ∧ off = 0 ∧ data.length = 16 then
@@ -89,26 +90,19 @@ def VSign.sendData (s : VSign) (off : UInt16) (data : List UInt8) : Except Panic
         let t := match r with | .ok t => some t | .error _ => none
         .ok { s with signType := t, w := w, h := h, chunks := satSucc s.chunks }
   else if s.state = .pixelsInProgress then
-    let s := if off = 0 then s.flush else s
-    .ok { s with pending := s.pending ++ data, chunks := satSucc s.chunks }
+    .ok ((if off = 0 then s.flush else s).appendChunk data)
   else .ok s
+
+/-- The state a receiving sign moves to when the chunk count is announced. -/
+def State.afterCount (st : State) (ok : Bool) : State :=
+  match st with
+  | .configInProgress => if ok then .configReceived else .configFailed
+  | .pixelsInProgress => if ok then .pixelsReceived else .pixelsFailed
+  | st => st
 
 /-- `data_chunks_sent`. -/
 def VSign.chunksSent (s : VSign) (n : UInt16) : VSign :=
-  let st :=
-    if s.chunks = n.toNat then
-      match s.state with
-      | .configInProgress => .configReceived
-      | .pixelsInProgress => .pixelsReceived
-      | st => st
-    else
-      match s.state with
-      | .configInProgress => .configFailed
-      | .pixelsInProgress => .pixelsFailed
-      | st => st
-  let s := { s with state := st }
-  let s := s.flush
-  { s with chunks := 0 }
+  { ({ s with state := s.state.afterCount (s.chunks == n.toNat) } : VSign).flush with chunks := 0 }
 
 def VSign.canReceivePixels : State → Bool
   | .configReceived | .pixelsFailed | .pageLoaded | .pageLoadInProgress | .pageShown
